@@ -81,7 +81,10 @@ def _(ir: IntegralIR) -> KernelTensorSizes:
     )
     coords = width * ir.expression.number_coordinate_dofs * 3
     local_index = 2  # TODO: this is just an upper bound, harmful?
-    permutation = 2 if ir.expression.needs_facet_permutations else 0
+    # Interior facet kernels index their (permuted) tables with quadrature_permutation even
+    # when only one restriction appears and needs_facet_permutations is false
+    permuted = ir.expression.needs_facet_permutations or width == 2
+    permutation = 2 if permuted else 0
 
     return KernelTensorSizes(A, w, c, coords, local_index, permutation)
 
